@@ -198,7 +198,7 @@ pub fn generate_with(src: &str, include: Option<&str>, options: WriteOptions) ->
     }
 }
 
-fn generate_with_unguarded(src: &str, include: Option<&str>, options: WriteOptions) -> Outcome {
+pub fn generate_with_unguarded(src: &str, include: Option<&str>, options: WriteOptions) -> Outcome {
     let r = std::panic::catch_unwind(std::panic::AssertUnwindSafe(|| match include {
         Some(p) => wgsl_to_wgpu::create_shader_module(src, p, options),
         None => wgsl_to_wgpu::create_shader_module_embedded(src, options),
